@@ -171,7 +171,7 @@ func (c *connection) stop() {
 		_ = c.conn.Close()
 		close(c.msgChan)
 		close(c.activeMsgChan)
-		close(c.activeMsgCompleteChan)
+		// activeMsgCompleteChan不关闭 超时协程可能在检查stopChan之后才发送 关闭了会panic
 		close(c.reissuePackChan)
 	})
 }
@@ -257,7 +257,10 @@ func (c *connection) onActiveEvent(activeMsg *ActiveMessage, record map[uint16]*
 			}
 			overtimeMsg.ExtensionFields.Err = errors.Join(ErrWriteDataOverTime,
 				fmt.Errorf("overtime is [%.2f]second", duration.Seconds()))
-			c.activeMsgCompleteChan <- overtimeMsg
+			select {
+			case c.activeMsgCompleteChan <- overtimeMsg:
+			case <-c.stopChan: // 连接已经结束 不能再发送
+			}
 		}(replyMsg)
 	}
 }
